@@ -236,6 +236,8 @@ def option_grid(fl, quick, salt):
 def obs_serial(c: Ctx, enc, *, props, quick=True, salt=0, tmpdir=None):
     st, fl = c.st, c.b.fl
     out = []
+    if "C03" in props:
+        return obs_dup_routes(c, enc)
     is_item = not fl.is_str
     mapper_needed = is_item
     # ------------------------------------------------------------------ C14
@@ -416,4 +418,48 @@ def obs_serial(c: Ctx, enc, *, props, quick=True, salt=0, tmpdir=None):
                 a = {"doc": mname, "expect": "RuntimeError"}
                 out.append({"q": "load_ext", "a": a, "r": call(
                     lambda mk=mk: cls.load(io.StringIO(json.dumps(mk(doc))), **load_kw), lambda t2: {"canon": canon_of(t2, fl)})})
+    return out
+
+
+# ------------------------------------------------------------------------------------------------ C03 routes: load / from_dict
+def obs_dup_routes(c: Ctx, enc):
+    """documents describing a tree with two siblings of the same data_id (a sibling entry repeated, or a clone
+    reference pointing at a sibling) must be refused with the uniqueness error by load() and from_dict()"""
+    st, fl = c.st, c.b.fl
+    out = []
+    if st["n"] == 0:
+        return out
+    cls = tree_class(fl, False)
+    enc = [dict(e) for e in enc]
+    # (1) repeat the last entry below the same parent
+    last = enc[-1]
+    doc = render_doc(enc + [dict(last)], fl)
+    out.append({"q": "dup_route", "a": {"route": "load:repeated_entry"},
+                "r": call(lambda: cls.load(io.StringIO(json.dumps(doc)), mapper=deser_mapper), lambda t: 0)})
+    # (2) a clone reference to a sibling: entry [parent of e, position of e]
+    for pos, e in enumerate(enc, 1):
+        if not e["ref"]:
+            doc2 = render_doc(enc, fl)
+            doc2["nodes"].append([e["pp"], pos])
+            out.append({"q": "dup_route", "a": {"route": "load:reference_to_sibling"},
+                        "r": call(lambda doc2=doc2: cls.load(io.StringIO(json.dumps(doc2)), mapper=deser_mapper), lambda t: 0)})
+            break
+    # (3) from_dict with a repeated dict in one children list
+    if fl.is_str and not fl.typed:
+        dl = c.b.tree.to_dict_list()
+
+        def dup_first_level(items):
+            return items + [json.loads(json.dumps(items[-1]))]
+        out.append({"q": "dup_route", "a": {"route": "from_dict:repeated_top_item"},
+                    "r": call(lambda: Tree.from_dict(dup_first_level(json.loads(json.dumps(dl)))), lambda t: 0)})
+        for it in dl:
+            if it.get("children"):
+                it2 = json.loads(json.dumps(dl))
+                for x in it2:
+                    if x.get("children"):
+                        x["children"] = dup_first_level(x["children"])
+                        break
+                out.append({"q": "dup_route", "a": {"route": "from_dict:repeated_child_item"},
+                            "r": call(lambda it2=it2: Tree.from_dict(it2), lambda t: 0)})
+                break
     return out
